@@ -26,6 +26,7 @@ type rowDef struct {
 }
 
 type kase struct {
+	slot int // worker announcing this case to the progress watchdog (not part of the case)
 	Kind  string   `json:"kind"` // lseq lqseq aseq aqseq multi mqulti set
 	Alpha string   `json:"alpha"`
 	Rows  []rowDef `json:"rows"` // alignment: rows are equally long, offsets ignored
@@ -428,6 +429,7 @@ type frozen struct {
 
 // play runs the operation list and checks every step; returns the canonical key of the final situation.
 func play(c *enum.Ctx, k kase) (key string, steps int, ok bool) {
+	c.Doing(k.slot, k)
 	fail := func(class, f string, a ...interface{}) {
 		c.Fail(k.Kind+"/"+class, k, "%s  [%s]", fmt.Sprintf(f, a...), enum.J(k))
 	}
@@ -638,6 +640,7 @@ func run(c *enum.Ctx) {
 	enum.Parallel(len(jobs), func(i int) {
 		nt := enum.NontrivialSet{}
 		j := jobs[i]
+		j.k.slot = i
 		if j.depth == 0 {
 			for _, ops := range [][]string{{"RC", "RC"}, {"RV", "RV"}, {"CL", "RC", "S0"}, {"CK", "RV", "SL"}} {
 				k := j.k
